@@ -1,5 +1,6 @@
 import S3V.Model.SigV4
 import S3V.Model.SigV4E2E
+import S3V.Model.SigDispatch
 import S3V.Spec.SigV4Verify
 import S3V.Spec.PostPolicy
 import S3V.Model.PostPolicy
@@ -201,6 +202,22 @@ def outcomeStr (backend : Bool) : E2E.Outcome → String
   | .err e => "ERR:" ++ (reprStr e).replace "S3V.SigV4.ErrCode." ""
   | .unmodelled w => "UNMODELLED:" ++ w
 
+/-- the answer of the dispatcher model (`SignatureContext::check` as a whole, C07) in the harness's notation: V2
+    credentials carry no region (`<none>`) and the service `s3` -/
+def dispatchStr (backend : Bool) : SigDispatch.Result → String
+  | .accept _ a r s => s!"ACCEPT:{hx a}:{hx (r.getD b!"<none>")}:{hx (s.getD b!"<none>")}"
+  | .anon => if backend then "ERR:AccessDenied" else "ANON"
+  | .err e => "ERR:" ++ (reprStr e).replace "S3V.SigV4.ErrCode." ""
+  | .unmodelled w => "UNMODELLED:" ++ w
+
+def dispatchPathTag : SigDispatch.Result → String
+  | .accept .v2Presigned .. => "accept-v2-presigned"
+  | .accept .v2Header .. => "accept-v2-header"
+  | .accept .. => "accept"
+  | .anon => "anon"
+  | .err e => "err-" ++ (reprStr e).replace "S3V.SigV4.ErrCode." ""
+  | .unmodelled _ => "unmodelled"
+
 def specStr : SigV4Spec.SpecVerdict → String
   | .accept a r s => s!"ACCEPT:{hx a}:{hx r}:{hx s}"
   | .reject w => "REJECT(" ++ w ++ ")"
@@ -285,10 +302,27 @@ def judgeE2E (id : String) (ins outs0 : List String) : String :=
                                      body, form, isForm := kind.startsWith "post" }
         let s1 := SigV4Spec.verify sha256hex hmacFn lookup n1 sw
         let s2 := SigV4Spec.verify sha256hex hmacFn lookup n2 sw
-        if o1 ≠ o2 || s1 ≠ s2 then unmodelled id "clock-moved-across-a-window-edge"
+        -- C07: the dispatcher model (V2 and V4 branches of `SignatureContext::check` in the code's order) on the same
+        -- raw request; the harness configures no `S3Host` (path style) and always a provider
+        let env (nowNs : Int) : SigDispatch.Env :=
+          { sha256hex, hmacSha256 := hmacFn, hmacSha1 := Crypto.hmacSha1, base64 := Crypto.base64Encode,
+            auth := some lookup, nowNs }
+        let dp1 := SigDispatch.dispatch (env n1) w none
+        let dp2 := SigDispatch.dispatch (env n2) w none
+        if o1 ≠ o2 || s1 ≠ s2 || dp1 ≠ dp2 then unmodelled id "clock-moved-across-a-window-edge"
         else match o1 with
-        | .unmodelled why => unmodelled id why
+        | .unmodelled why =>
+          -- Signature V2 material is outside the V4 end-to-end model; the dispatcher answers for it
+          match dp1 with
+          | .unmodelled _ => unmodelled id why
+          | _ =>
+            let m := dispatchStr (sink = "backend") dp1
+            if m ≠ impl then disagree id ("dispatch:" ++ m) impl
+            else agree id s!"{kind}-dispatch-{dispatchPathTag dp1}"
         | _ =>
+          if dispatchStr (sink = "backend") dp1 ≠ outcomeStr (sink = "backend") o1 then
+            disagree id ("dispatch:" ++ dispatchStr (sink = "backend") dp1) ("e2e-model:" ++ outcomeStr (sink = "backend") o1)
+          else
           let isPost := kind.startsWith "post"
           let bucket := (splitFirst 47 (p.drop 1)).1
           let fileLen := file.length / 2
